@@ -33,7 +33,7 @@ ASSUMPTIONS = [
     "<= |ref|+1 over the reference's tokens plus one foreign token) wherever that is affordable",
     "dyadic costs: float32 cost sums are exact, so no tie exists only in floating point",
     "padding / ignore_index never equals a reference token (generator guarantees it)",
-    "loss compared in float64 within 1e-6*S + 1e-5*|expected| (S = max(1, largest |logit| of the call): float32 "
+    "loss compared in float64 within 2e-6*S + 1e-5*|expected| (S = max(1, largest |logit| of the call): float32 "
     "log-sum-exp error scales with the logits); 'mean' is pinned on uniform batches "
     "and on ragged batches must equal one of the listed sensible averagings",
     "USE_JIT off (library runs as plain Python)",
@@ -360,7 +360,7 @@ def _nll(logit_row):
 
 
 def _tol(b, scale):
-    return 1e-6 * scale + 1e-5 * abs(b)
+    return 2e-6 * scale + 1e-5 * abs(b)
 
 
 def _near(a, b, scale):
